@@ -25,6 +25,7 @@ struct Incident {
     input_hex: Option<String>,
     index: Option<u64>,
     status: String,
+    phase: u32,
 }
 
 fn spawn_worker(
@@ -83,6 +84,7 @@ fn incident_from(cur: &CurSnapshot, names: &[String], kind: &'static str, status
         input_hex: if cur.kind == 2 { Some(hex(&cur.data)) } else { None },
         index: if cur.kind == 1 { Some(cur.idx) } else { None },
         status,
+        phase: cur.phase,
     }
 }
 
@@ -101,6 +103,9 @@ fn run_alone(exe: &Path, id: &str, tier: Tier, root: &Path, inc: &Incident, limi
     if let Some(i) = inc.index {
         cmd.arg("--index").arg(i.to_string());
     }
+    let phase_file = root.join("harness/target/runs").join(format!("one-{}-{}.phase", id, std::process::id()));
+    let _ = std::fs::remove_file(&phase_file);
+    cmd.env("VERIF_PHASE_FILE", &phase_file);
     cmd.stdin(Stdio::null()).stdout(Stdio::null()).stderr(Stdio::null());
     let mut child = match cmd.spawn() {
         Ok(c) => c,
@@ -184,6 +189,7 @@ pub fn run_property(prop: &'static dyn Prop, tier: Tier, seed: u64, root: &Path)
                                 input_hex: None,
                                 index: None,
                                 status: format!("{status} (between cases)"),
+                                phase: 0,
                             });
                             sh.gave_up = true;
                             continue;
@@ -196,6 +202,7 @@ pub fn run_property(prop: &'static dyn Prop, tier: Tier, seed: u64, root: &Path)
                             input_hex: None,
                             index: None,
                             status: format!("{status} (no cur record)"),
+                            phase: 0,
                         });
                         continue;
                     }
@@ -328,10 +335,17 @@ pub fn run_property(prop: &'static dyn Prop, tier: Tier, seed: u64, root: &Path)
             infra.push(format!("worker {} outside a case: {}", inc.kind, inc.status));
             continue;
         }
-        if inc.kind == "timeout" && !timeout_is_violation {
-            // not a verdict for this property: recorded as an inconclusive (over-budget) case
-            crash_notes.push(json!({"kind": "timeout", "section": inc.sec, "choices_hex": inc.input_hex, "index": inc.index,
-                                    "first_status": inc.status, "note": "over the per-case time budget; inconclusive, not re-run"}));
+        let exempt = prop.timeout_exempt_phase();
+        let in_exempt_phase = exempt.is_some() && exempt == Some(inc.phase);
+        if (inc.kind == "timeout" && !timeout_is_violation) || in_exempt_phase {
+            // not a verdict for this property: recorded as an inconclusive case
+            let note = if in_exempt_phase {
+                "ended inside a part of the case that is a precondition, not the property's subject (phase mark); inconclusive, not re-run"
+            } else {
+                "over the per-case time budget; inconclusive, not re-run"
+            };
+            crash_notes.push(json!({"kind": inc.kind, "section": inc.sec, "choices_hex": inc.input_hex, "index": inc.index,
+                                    "first_status": inc.status, "note": note}));
             over_budget += 1;
             continue;
         }
@@ -392,7 +406,10 @@ pub fn run_property(prop: &'static dyn Prop, tier: Tier, seed: u64, root: &Path)
                 }
             }
         } else if timed_out {
-            if timeout_is_violation {
+            let alone_phase: Option<u32> = std::fs::read_to_string(root.join("harness/target/runs").join(format!("one-{}-{}.phase", id, std::process::id()))).ok().and_then(|t| t.trim().parse().ok());
+            if exempt.is_some() && alone_phase == exempt {
+                over_budget += 1;
+            } else if timeout_is_violation {
                 let sig = "timeout".to_string();
                 let ex = mk(&sig, format!("no result within {limit}s when run alone"));
                 let kid = prop.known(&Viol::new(&sig, "", "timeout".to_string(), ex["case"].clone()));
